@@ -200,8 +200,19 @@ def work_recursive(args):
     cfg["kms-script"] = str(common.VERIF / "harness" / "kms_recording.py")
     cfg["context"] = signing.keys_dir()
     expect_fail = None
+    def bogus_node():
+        # the configuration of the named-but-unusable dependency: to be signed, or passed over (with and without a key / an empty dependency map)
+        return rng.choice([{"key-name": "key_ed25519", "key-id": "0x1"}, {"omit-signing": True}, {"omit-signing": True, "dependencies": {}},
+                           {"omit-signing": True, "key-name": "key_ed25519", "key-id": "0x1"}, {"omit-signing": True, "alg": "es-256"}])
+
+    def some_node(c, shape_here):
+        # a configured node at a random depth whose envelope exists (the root, or a named dependency on a path of named dependencies)
+        deeper = [(x, shape_here[n]) for n, x in c.get("dependencies", {}).items() if n in shape_here]
+        if deeper and rng.random() < 0.5:
+            return some_node(*rng.choice(deeper))
+        return c
     if mode == "absent":
-        cfg.setdefault("dependencies", {})["#nope"] = {"key-name": "key_ed25519", "key-id": "0x1"}
+        some_node(cfg, shape).setdefault("dependencies", {})["#nope"] = bogus_node()
         expect_fail = "a named dependency is absent"
     elif mode == "not-envelope":
         # name an integrated payload (not an envelope) as a dependency
@@ -209,7 +220,7 @@ def work_recursive(args):
         pl = [k[1].decode() for k in mm if k[0] == 3 and not k[1].decode().startswith("#dep")]
         if not pl:
             return None
-        cfg.setdefault("dependencies", {})[pl[0]] = {"key-name": "key_ed25519", "key-id": "0x1"}
+        cfg.setdefault("dependencies", {})[pl[0]] = bogus_node()
         expect_fail = "a named dependency is not an envelope"
     elif mode == "mismatch":
         def poison(c, inherited="eddsa"):
